@@ -233,10 +233,11 @@ def install_fake_usb():
     for name, mod in (('usb', usb), ('usb.core', core), ('usb.backend', backend), ('usb.backend.libusb1', libusb1)):
         sys.modules[name] = mod
     sys.modules.pop('bronzebeard.dfu', None)
-    if '/repo' not in sys.path:
-        sys.path.insert(0, '/repo')
+    from mc import kernel
+    if kernel.REPO not in sys.path:
+        sys.path.insert(0, kernel.REPO)
     import bronzebeard.dfu as dfu
-    assert dfu.__file__.startswith('/repo/'), dfu.__file__
+    assert dfu.__file__.startswith(kernel.REPO + '/'), dfu.__file__
     _FAKE['dfu'] = dfu
     return dfu
 
